@@ -848,7 +848,7 @@ func indexGuard(p *Prog, at ssa.Instruction, coll, idx ssa.Value) string {
 		}
 	}
 	// the index computed by a helper of the package (cursor.next()): look at what it returns
-	if cl, ridx := CallOfValue(idx); cl != nil && cl.Call.StaticCallee() != nil && len(cl.Call.StaticCallee().Blocks) > 0 && PkgOf(cl.Call.StaticCallee()) == PkgOf(at.Parent()) {
+	if cl, ridx := CallOfValue(idx); cl != nil && cl.Call.StaticCallee() != nil && len(cl.Call.StaticCallee().Blocks) > 0 && IsPandora(PkgOf(cl.Call.StaticCallee())) {
 		if ridx < 0 {
 			ridx = 0
 		}
@@ -1350,6 +1350,62 @@ func nonZeroGuard(at ssa.Instruction, y ssa.Value) string {
 	if isLenCall(y) {
 		if n, ok := lowerBoundOnLen(at, lenArg(y)); ok && n >= 1 {
 			return "divisor is len(x), len > 0"
+		}
+	}
+	// divisor = a field of the receiver / a pointer parameter, checked != 0 by every caller on the object it passes,
+	// and assigned nowhere in this function (cycle.length: `if cycle.length == 0 { return }` before cycle.next())
+	if u, ok := y.(*ssa.UnOp); ok && u.Op == token.MUL {
+		if fa, ok := u.X.(*ssa.FieldAddr); ok {
+			if pr, ok := fa.X.(*ssa.Parameter); ok {
+				fn := pr.Parent()
+				written := false
+				EachInstr(fn, func(in ssa.Instruction) {
+					if st, ok := in.(*ssa.Store); ok {
+						if fa2, ok := st.Addr.(*ssa.FieldAddr); ok && fa2.Field == fa.Field && fa2.X == fa.X {
+							written = true
+						}
+					}
+				})
+				sites := pkgCallers(fn)
+				pi := -1
+				for i, q := range fn.Params {
+					if q == pr {
+						pi = i
+					}
+				}
+				if !written && len(sites) > 0 && pi >= 0 {
+					all := true
+					for _, s := range sites {
+						cc := CC(s)
+						okSite := false
+						if cc != nil && pi < len(cc.Args) {
+							obj := cc.Args[pi]
+							for _, f := range CmpFactsAt(s) {
+								for _, g := range []Fact{f, {Op: flip(f.Op), X: f.Y, Y: f.X}} {
+									k, isK := ConstInt(g.Y)
+									if g.Y == nil || !isK {
+										continue
+									}
+									if !((g.Op == token.NEQ && k == 0) || (g.Op == token.GTR && k >= 0) || (g.Op == token.GEQ && k >= 1)) {
+										continue
+									}
+									if lu, ok := g.X.(*ssa.UnOp); ok && lu.Op == token.MUL {
+										if lfa, ok := lu.X.(*ssa.FieldAddr); ok && lfa.Field == fa.Field && lfa.X == obj {
+											okSite = true
+										}
+									}
+								}
+							}
+						}
+						if !okSite {
+							all = false
+						}
+					}
+					if all {
+						return "divisor is a field of the receiver that every caller checked != 0 on the object it passes; the function does not assign it"
+					}
+				}
+			}
 		}
 	}
 	return ""
